@@ -4,13 +4,21 @@
   * `sites`        — every statement in `src/spox/_*.py` that writes to state that can outlive the
                      statement's own frame: attribute assignment / augmented assignment / deletion
                      (`x.a = v`, `x.a[i] = v`, `del x.a[:]`), `setattr`, `object.__setattr__`,
-                     `_rename(...)` calls, item writes into module-level containers, `global` rebinding.
+                     `_rename(...)` calls, item writes into module-level containers, `global` rebinding,
+                     in-place mutator calls (`add`, `update`, `setdefault`, `append`, `CopyFrom` …) on an
+                     attribute chain rooted at `self`, a parameter or a global (`self.x.add(v)`,
+                     `node.__dict__.setdefault(…)`, `vars(node).update(…)`: kind `mutate-attr`).
                      Each with: file, enclosing qualified function, receiver root, attribute,
                      kind, whether it is a constructor write to `self`, whether it sits in a
                      `finally` clause, and whether it sits in the body of a `try … finally`.
   * `inlineEvents` — what `_public.inline` does with its `model` parameter, in source order:
                      `read`, `copy` (`model = _copy_model(model)`), `mutate`, `closure`
                      (definition of the returned callback).
+  * `moduleMutables` — module-level assignments of a container literal / comprehension / call result
+                     (candidates for a cache that outlives a build): [file, name, constructor].
+  * `decorators`   — every decorator of a function or class (memoising decorators — `lru_cache`, `cache`,
+                     `cached_property` — keep state without any write site): [file, qualified name, decorator].
+  * `dictAccess`   — every use of `x.__dict__` / `vars(x)` (the back door around attribute assignment).
 The Lean side (`Model/Purity.lean`) states which sites are allowed; `Props/C12.lean` proves that the
 extracted table contains nothing else. Local-variable and parameter rebinding is not state.
 """
@@ -39,7 +47,9 @@ class Visitor(ast.NodeVisitor):
         self.fin = 0
         self.tryf = 0
         self.locals = [set()]
+        self.params = [set()]
         self.sites = []
+        self.dict_access = []
 
     # -- scopes
     def visit_ClassDef(self, node):
@@ -61,12 +71,16 @@ class Visitor(ast.NodeVisitor):
         for sub in ast.walk(node):
             if isinstance(sub, ast.Name) and isinstance(sub.ctx, ast.Store) and sub.id not in globs:
                 loc.add(sub.id)
+        self.params.append({a.arg for a in node.args.args + node.args.kwonlyargs + node.args.posonlyargs}
+                           | ({node.args.vararg.arg} if node.args.vararg else set())
+                           | ({node.args.kwarg.arg} if node.args.kwarg else set()))
         self.locals.append(loc)
         saved = (self.fin, self.tryf)
         self.fin = self.tryf = 0
         self.generic_visit(node)
         self.fin, self.tryf = saved
         self.locals.pop()
+        self.params.pop()
         self.stack.pop()
 
     visit_FunctionDef = _func
@@ -106,6 +120,8 @@ class Visitor(ast.NodeVisitor):
             base, item = base.value, True
         if isinstance(base, ast.Attribute):
             self.add(dotted(base.value) or _root(base), base.attr, kind + ("-item" if item else ""))
+        elif isinstance(base, ast.Call) and dotted(base.func) == "vars" and base.args:
+            self.add(dotted(base.args[0]) or _root(base.args[0]), "__dict__", kind + "-item")
         elif isinstance(base, ast.Name) and item:
             # item write into a module-level container (a cache)
             if self.stack and base.id in self.module_names and base.id not in self.locals[-1]:
@@ -150,6 +166,30 @@ class Visitor(ast.NodeVisitor):
             r = f.value
             if isinstance(r, ast.Name) and r.id in self.module_names and r.id not in self.locals[-1]:
                 self.add("<global>", r.id, "mutate-global")
+            elif isinstance(r, (ast.Attribute, ast.Subscript, ast.Call)):
+                # … or of something reached through an attribute chain from `self`, a parameter or a global
+                base = r
+                through_vars = None
+                while isinstance(base, (ast.Subscript, ast.Call)):
+                    if isinstance(base, ast.Call):
+                        if dotted(base.func) == "vars" and base.args:
+                            through_vars = base.args[0]
+                        base = base.func
+                    else:
+                        base = base.value
+                root = _root(through_vars if through_vars is not None else r)
+                lasting = root is not None and (root in self.params[-1] or root not in self.locals[-1])
+                if through_vars is not None and lasting:
+                    self.add(dotted(through_vars) or root, "__dict__", "mutate-attr")
+                elif isinstance(base, ast.Attribute) and lasting:
+                    self.add(dotted(base.value) or root, base.attr, "mutate-attr")
+        if dotted(f) == "vars":
+            self.dict_access.append([self.file, ".".join(self.stack) or "<module>"])
+        self.generic_visit(node)
+
+    def visit_Attribute(self, node):
+        if node.attr == "__dict__":
+            self.dict_access.append([self.file, ".".join(self.stack) or "<module>"])
         self.generic_visit(node)
 
 
@@ -162,8 +202,9 @@ def module_level_names(mod):
     return names
 
 
-def extract_sites():
+def extract_sites(with_dict_access=False):
     sites = []
+    dict_access = []
     for path in sorted((REPO / "src" / "spox").glob("_*.py")):
         if path.name in ("__init__.py", "_version.py"):
             continue
@@ -171,7 +212,63 @@ def extract_sites():
         v = Visitor(path.name, module_level_names(mod))
         v.visit(mod)
         sites.extend(v.sites)
-    return sites
+        dict_access.extend(v.dict_access)
+    return (sites, dict_access) if with_dict_access else sites
+
+
+def extract_module_mutables():
+    """Module-level `name = <container literal | comprehension | call>`: [file, name, constructor]
+    (constructor = 'literal' or the dotted name of the called function)."""
+    out = []
+    for path in sorted((REPO / "src" / "spox").glob("_*.py")):
+        if path.name in ("__init__.py", "_version.py"):
+            continue
+        mod = ast.parse(path.read_text(), filename=str(path))
+        stmts = list(mod.body)
+        for st in list(stmts):  # also inside module-level if/try blocks
+            if isinstance(st, (ast.If, ast.Try)):
+                stmts.extend(st.body + st.orelse + (st.finalbody if isinstance(st, ast.Try) else []))
+                for h in getattr(st, "handlers", []):
+                    stmts.extend(h.body)
+        for st in stmts:
+            tgs, val = [], None
+            if isinstance(st, ast.Assign):
+                tgs, val = st.targets, st.value
+            elif isinstance(st, ast.AnnAssign) and st.value is not None:
+                tgs, val = [st.target], st.value
+            if val is None:
+                continue
+            if isinstance(val, (ast.Dict, ast.List, ast.Set, ast.ListComp, ast.DictComp, ast.SetComp)):
+                ctor = "literal"
+            elif isinstance(val, ast.Call):
+                ctor = dotted(val.func) or "<call>"
+            else:
+                continue
+            for t in tgs:
+                out.append([path.name, dotted(t) or "?", ctor])
+    return out
+
+
+def extract_decorators():
+    """[file, qualified name of the decorated function/class, decorator (dotted name of what is applied)]."""
+    out = []
+    for path in sorted((REPO / "src" / "spox").glob("_*.py")):
+        if path.name in ("__init__.py", "_version.py"):
+            continue
+        mod = ast.parse(path.read_text(), filename=str(path))
+
+        def rec(node, stack):
+            for ch in ast.iter_child_nodes(node):
+                if isinstance(ch, (ast.FunctionDef, ast.AsyncFunctionDef, ast.ClassDef)):
+                    for d in ch.decorator_list:
+                        out.append([path.name, ".".join(stack + [ch.name]),
+                                    (dotted(d.func) if isinstance(d, ast.Call) else dotted(d)) or "<expr>"])
+                    rec(ch, stack + [ch.name])
+                else:
+                    rec(ch, stack)
+
+        rec(mod, [])
+    return out
 
 
 def extract_inline_events():
@@ -267,8 +364,19 @@ def site_lean(s):
                              lean_str(s["kind"]), lean_bool(s["ctor"]), lean_bool(s["fin"]), lean_bool(s["tryf"])]) + "⟩")
 
 
+def _triples(name, rows):
+    return (f"def {name} : List (String × String × String) := " + lean_list(
+        ["(" + ", ".join(lean_str(x) for x in m) + ")" for m in rows]) + "\n")
+
+
 def generate() -> dict:
-    sites = extract_sites()
+    sites, dict_access = extract_sites(with_dict_access=True)
+    extra = {}
+    for key, fn in (("module_mutables", extract_module_mutables), ("decorators", extract_decorators)):
+        try:
+            extra[key] = fn()
+        except Exception as e:  # noqa: BLE001 - degrade to an entry whose obligation fails
+            extra[key] = [["<unreadable>", type(e).__name__, "<unreadable>"]]
     events = extract_inline_events()
     try:
         mutables = extract_class_mutables()
@@ -283,9 +391,13 @@ def generate() -> dict:
     lines.append(f"def inlineEvents : List Ev := {lean_list(['.' + e.replace('-', '_') for e in events])}\n")
     lines.append("def classMutables : List (String × String × String) := " + lean_list(
         ["(" + ", ".join(lean_str(x) for x in m) + ")" for m in mutables]) + "\n")
+    lines.append(_triples("moduleMutables", extra["module_mutables"]))
+    lines.append(_triples("decorators", extra["decorators"]))
+    lines.append("def dictAccess : List (String × String) := " + lean_list(
+        ["(" + ", ".join(lean_str(x) for x in m) + ")" for m in dict_access]) + "\n")
     lines.append("end Generated.Writes\n")
     write_if_changed(GEN / "Writes.lean", "\n".join(lines))
-    return {"sites": sites, "inline_events": events, "class_mutables": mutables}
+    return {"sites": sites, "inline_events": events, "class_mutables": mutables, "dict_access": dict_access, **extra}
 
 
 if __name__ == "__main__":
